@@ -28,6 +28,8 @@ type history struct {
 	RefName string
 	// RawRefTarget, if set, is published instead of the head commit (blob / tree hash)
 	RawRefTarget string
+	// Recommit: identical content, but every commit gets another timestamp (other hashes)
+	Recommit bool
 }
 
 func (h *history) clone() *history {
